@@ -775,3 +775,4 @@ EXPLANATION += (' Round 6: ' + 'THRESHOLD/scenarios (the events produced for con
 EXPLANATION += (' Round 7: ' + 'BRANCH/note-off-removes-one also locates a removal by a field of the ending note.')
 EXPLANATION += (' Rounds 9-10: ' + 'PITFALL/dead-parameter on apply_sustain_control_changes; PAIR/end-total located as in C11.')
 EXPLANATION += (' Round 11: ' + 'BRANCH/pedal-state-always-recorded; ORD/assumes-sorted shared from C12.')
+EXPLANATION += (' Round 12: ' + 'PAIR/total-time-never-lowered.')
